@@ -503,3 +503,35 @@ func harnessC01Desc(kind int) {
 
 func Harness_C01_desc_grp() { harnessC01Desc(verifKindGrp) }
 func Harness_C01_desc_p2p() { harnessC01Desc(verifKindP2P) }
+
+// ---- C01: once the hub has unloaded a topic (idle timeout or rehash) the old instance hands out no more
+// numbers: a publish it still finds in its queue before it sees the exit request is refused. Otherwise the
+// old instance and a freshly loaded one would both issue lastID+1.
+func Harness_C01_unloaded_instance_issues_no_numbers() {
+	fx := verifNewTopic(verifKindGrp, 2)
+	t := fx.topic
+	t.lastID = verifSeq("lastID")
+	fx.store.topics[t.name].SeqId = t.lastID
+	t.exit = make(chan *shutDown, 1)
+	fx.hub.topics.Store(t.name, t)
+	author := fx.uids[1]
+	sess := verifNewSession("sid-a", author, auth.LevelAuth, 32)
+	fx.attach(sess, author, false)
+	reason := []int{StopNone, StopRehashing}[verifChoose("reason", 2)]
+	err := fx.hub.topicUnreg(nil, t.name, nil, reason)
+	verifAssert(err == nil, "unload-succeeds")
+	_, still := fx.hub.topics.Load(t.name)
+	verifAssert(!still, "unloaded-topic-dropped-from-the-hub")
+	n0, rows0 := t.lastID, len(fx.store.msgs)
+	pub := &ClientComMessage{Id: "p1", AsUser: author.UserId(), AuthLvl: int(auth.LevelAuth), Original: t.name, RcptTo: t.name,
+		Timestamp: types.TimeNow(), sess: sess, init: true, Pub: &MsgClientPub{Id: "p1", Topic: t.name, Content: "x"}}
+	t.handlePubBroadcast(pub)
+	accepted := false
+	for _, r := range verifDrainSend(sess) {
+		if r != nil && r.Ctrl != nil && r.Ctrl.Code == 202 {
+			accepted = true
+		}
+	}
+	verifAssert(!accepted && t.lastID == n0 && len(fx.store.msgs) == rows0, "unloaded-instance-issues-no-number")
+	verifReach("end")
+}
